@@ -95,12 +95,13 @@ func New(prop, tier string, seed uint64, shard, nshards int, lastCasePath string
 // Thorough reports whether the thorough tier is running.
 func (c *Ctx) Thorough() bool { return c.Tier == "thorough" }
 
-// quickMult multiplies the seeded-random part of the quick tier (the sizes the
-// workloads were first written with left every quick check under 25 s; the
-// factors bring each to roughly half a minute on the 16-core sandbox). The
+// quickMult multiplies the seeded-random part of the quick tier for the checks
+// that the sizes they were first written with left at one to four seconds (the
+// factors bring them to 2 - 15 s on the 16-core sandbox; the thorough tier runs
+// the same loops 100 times longer still). The
 // factor is part of the definition of the case list, so a replay file stays
 // valid; VERIF_QUICK_MULT overrides it for experiments only.
-var quickMult = map[string]int{}
+var quickMult = map[string]int{"C01": 10, "C12": 10, "C17": 10, "C02": 4, "C03": 4, "C13": 4, "C15": 4}
 
 // QuickMult returns the factor for a property (1 if none is registered).
 func QuickMult(prop string) int {
